@@ -548,6 +548,15 @@ pub fn special_cases() -> Vec<(String, Vec<u8>)> {
             }
         }
     }
+    // group 4 fax images whose /Width and /Columns agree on a value the decoder's 16-bit line width cannot hold (or on 0),
+    // over data that really decodes (two all-white rows), and row counts beyond 16 bits
+    for (name, width, rows, k) in [("zero", 0i64, 2i64, -1i64), ("65536", 65536, 2, -1), ("65544", 65544, 2, -1), ("2^32-1", 4294967295, 2, -1), ("8-rows-65537", 8, 65537, -1), ("8-rows-0", 8, 0, -1), ("8-K-0", 8, 2, 0), ("8-K-1", 8, 2, 1), ("65535", 65535, 2, -1)] {
+        let mut objs = hostile_objects();
+        let e = objs.iter_mut().find(|(n, _)| *n == 67).unwrap();
+        e.1.set("Width", Val::Int(width));
+        e.1.set("DecodeParms", Val::dict(vec![("K", Val::Int(k)), ("Columns", Val::Int(width)), ("Rows", Val::Int(rows))]));
+        v.push((format!("ccitt-width-and-columns-{}", name), rich_doc_with(b"", DocOpts::CLASSIC, &objs)));
+    }
     // PostScript calculator operands
     for (name, prog) in [("ps-roll-negative", "{ 1 2 3 3 -1 roll }"), ("ps-roll-huge", "{ 1 2 3 3 2147483647 roll }"), ("ps-roll-n-huge", "{ 1 2 2147483647 1 roll }"), ("ps-index-huge", "{ 1 2147483647 index }"), ("ps-index-negative", "{ 1 -1 index }"), ("ps-pop-empty", "{ pop pop pop }"), ("ps-deep", "{ dup dup dup dup dup dup dup dup dup dup dup dup dup dup dup dup dup dup dup dup }"), ("ps-unbalanced", "{ { 1 }"), ("ps-empty", "")] {
         let mut objs = hostile_objects();
